@@ -24,7 +24,9 @@ Weights(nn, pp, qq) ==
 
 Init == \E t \in Triples : n = t[1] /\ p = t[2] /\ q = t[3] /\ dist = <<>> /\ phase = "args" /\ used = <<>>
 Compute == /\ phase = "args" /\ dist' = Weights(n, p, q) /\ phase' = "done" /\ UNCHANGED <<n, p, q, used>>
-(* every preference list of the run is drawn with the weights computed from THIS run's arguments *)
+(* every preference list of the run - whatever its length, complete lists included - is drawn with the   *)
+(* weights computed from THIS run's arguments; the first entry of a list is agent i with probability      *)
+(* dist[i] (Positive, SumsToOne: the weights are a probability distribution)                               *)
 Draw == /\ phase = "done" /\ Len(used) < MaxDraws /\ used' = Append(used, dist) /\ UNCHANGED <<n, p, q, dist, phase>>
 Spec == Init /\ [][Compute \/ Draw]_skvars
 
